@@ -73,7 +73,7 @@ func TestC20(t *testing.T) {
 			gen(append(prefix, o), n-1)
 		}
 	}
-	gen(nil, mon.Pick(3, 4))
+	gen(nil, mon.Pick(3, 5))
 	seqs = append(seqs, []string{"H"}, []string{"H", "T"}, []string{"H", "P"}, []string{"C", "H", "T"}, []string{"C", "H", "P"}, []string{"C", "B", "H", "T"}, []string{"C", "T", "H", "T"}, []string{"C", "P", "H", "P"})
 	r.Count("sequences", int64(len(seqs)))
 
